@@ -501,6 +501,11 @@ func (r *Runtime) _stringPad(call FunctionCall, start bool) Value {
 		fillerAscii = " "
 		filler = fillerAscii
 	}
+	// the length of the result is limited to what can sanely be allocated (same limit as String.prototype.repeat),
+	// checked before anything is allocated
+	if maxLength > math.MaxInt32 {
+		panic(r.newError(r.getRangeError(), "Invalid string length"))
+	}
 	remaining := toIntStrict(maxLength - stringLength)
 	if fillerUnicode == nil && strUnicode == nil {
 		fl := fillerAscii.Length()
